@@ -11,7 +11,8 @@
 //
 // input : {"blocks":[{"txs":[..],"ic":[[k,[..]]..],"tag":t,"w":delta}...], "n":n, "units":u}
 // output: {"entries":[...], "uh","ut", tables, "refs":[lobs at n, n+1, N], "rec":code,
-//          "obs1":lobs|null, "cont":code, "obs2":lobs|null}
+//
+//	"obs1":lobs|null, "cont":code, "obs2":lobs|null}
 package main
 
 import (
@@ -36,6 +37,7 @@ type blockIn struct {
 	W   int           `json:"w"`
 }
 type caseIn struct {
+	LDB    string    `json:"ldb"` // leveldb_type of both stores: "normal" (default) or "multi"
 	Blocks []blockIn `json:"blocks"`
 	N      int       `json:"n"`
 	Units  int       `json:"units"`
@@ -77,7 +79,9 @@ type dropBatch struct {
 	ctl *dropCtl
 }
 
-func (d *dropStore) NewBatch() storage.Batch { return &dropBatch{Batch: d.Storage.NewBatch(), ctl: d.ctl} }
+func (d *dropStore) NewBatch() storage.Batch {
+	return &dropBatch{Batch: d.Storage.NewBatch(), ctl: d.ctl}
+}
 func (b *dropBatch) Commit() {
 	if b.ctl.active {
 		k := b.ctl.count
@@ -212,7 +216,7 @@ func runCase(line []byte) (interface{}, error) {
 		if err != nil {
 			return nil, err
 		}
-		s, err := clx.OpenFull(dir, nil, nil)
+		s, err := clx.OpenFull(dir, c.LDB, nil, nil)
 		if err != nil {
 			os.RemoveAll(dir)
 			return nil, err
@@ -237,7 +241,7 @@ func runCase(line []byte) (interface{}, error) {
 	}
 	if c.N == 0 {
 		dir, _ := os.MkdirTemp("", "crashref0")
-		s, err := clx.OpenFull(dir, nil, nil)
+		s, err := clx.OpenFull(dir, c.LDB, nil, nil)
 		if err != nil {
 			return nil, err
 		}
@@ -260,7 +264,7 @@ func runCase(line []byte) (interface{}, error) {
 	sctl.drop[0] = !has(0) // StateBatch
 	sctl.drop[1] = !has(1) // PruneBatch (the second state-store batch, at pruning heights only)
 	cctl.drop[0] = !has(2) // IndexBatch
-	s, err := clx.OpenFull(dir, func(st storage.Storage) storage.Storage { return &dropStore{Storage: st, ctl: cctl} },
+	s, err := clx.OpenFull(dir, c.LDB, func(st storage.Storage) storage.Storage { return &dropStore{Storage: st, ctl: cctl} },
 		func(st storage.Storage) storage.Storage { return &dropStore{Storage: st, ctl: sctl} })
 	if err != nil {
 		return nil, err
@@ -298,11 +302,31 @@ func runCase(line []byte) (interface{}, error) {
 	}
 	os.RemoveAll(snap)
 
-	// ---- restart
-	s2, err := clx.OpenFull(dir, nil, nil)
-	if err != nil {
-		out.Rec = classify(err)
-		out.RecErr = err.Error()
+	// ---- restart: the real start-up sequence (ledger.New, then the read-only view ledger on the
+	// same state store, as app.GenerateBitXHubWithoutOrder does), performed TWICE in a row (the
+	// node is stopped again before it executes anything), then execution continues
+	startup := func() (*clx.Stores, int, string) {
+		st, err := clx.OpenFull(dir, c.LDB, nil, nil)
+		if err != nil {
+			return nil, classify(err), err.Error()
+		}
+		if err := st.OpenView(); err != nil {
+			st.Close()
+			return nil, 6, "view ledger: " + err.Error()
+		}
+		return st, 0, ""
+	}
+	s2, code, msg := startup()
+	if code == 0 {
+		s2.Close()
+		s2, code, msg = startup()
+		if code != 0 {
+			code += 20
+		}
+	}
+	if code != 0 {
+		out.Rec = code
+		out.RecErr = msg
 	} else {
 		out.Obs1 = w.observe(s2, kh, uh, ut)
 		out.Cont = 0
